@@ -185,6 +185,14 @@ def check_len(ctx, rep, lens):
         return
     lin = fr.returns[0][1].lin
     counts = {t: c for t, c in lin.c.items() if isinstance(t, tuple) and t[0] == "count" and t[1] == ("unk", ("s",))}
+    others = [t for t in lin.c if isinstance(t, tuple) and t[0] == "count" and t[1] != ("unk", ("s",))]
+    if others:
+        # characters are counted in an edited copy of the string (stripped, sliced, replaced ...): separators of the original
+        # that split_selfies yields can go uncounted
+        rep.ob("K4", False, lens.node, lens, construct="len_selfies = %r" % (lin,), how="count('[') + count('.') of the string itself",
+               witness="a character count is taken over a derived string, not over the argument: items that split_selfies yields "
+               "(e.g. a trailing '.') are not counted", nontrivial=True, key="len-formula")
+        return
     if len(counts) != len(lin.c):
         rep.note("len_selfies is not an affine form over character counts: agreement with split_selfies not decided")
         return
